@@ -188,6 +188,7 @@ class Connection(object):
         finally:
             # whatever closing the channel and the service's hook do (both may raise), the connection lets go
             # of everything it held; doing so a second time is harmless
+            pending = list(self._request_callbacks.values())
             self._request_callbacks.clear()
             self._local_objects.clear()
             self._proxy_cache.clear()
@@ -197,6 +198,14 @@ class Connection(object):
             # self._seqcounter = None
             # self._config.clear()
             self.__dict__.pop("_HANDLERS", None)
+            # the requests still waiting for an answer get the only one there will ever be - the end of the
+            # connection: their results become ready (an error, EOFError) and their callbacks run, instead of
+            # `ready` staying False for ever; a callback that fails must not stop the clean-up
+            for callback in pending:
+                try:
+                    callback(True, EOFError("connection closed"))
+                except Exception:
+                    pass
 
     def close(self):  # IO
         """closes the connection, releasing all held resources"""
